@@ -81,7 +81,8 @@ def main() -> int:
                          cwd=wt, env=env, timeout=1800)
             res["pytest_rc"] = rc
             res["pytest_summary"] = out.strip().splitlines()[-1] if out.strip() else ""
-        res["checks"] = {}
+        # results of other properties' checks from earlier runs of the same patch are kept
+        res["checks"] = dict(old.get("checks", {})) if old.get("patch_sha1", res["patch_sha1"]) == res["patch_sha1"] else {}
         for p in props:
             for s in a.seeds.split(","):
                 e = dict(os.environ, LW_REPO=str(wt), VERIF_SEED=s, VERIF_EVIDENCE_DIR=str(wt) + "/.verif_out/evidence",
